@@ -198,13 +198,13 @@ pub fn def() -> PropDef {
             "canonization at N = 8 is exercised for both families in C04/C05, at N >= 9 nowhere (minutes per call)",
         ],
         subs: vec![
-            Box::new(Sub { name: "diff", rule: "Lut vs LutN on the same history", strategy, cases: (6_000, 500_000), exhaustive: None, exhaustive_note: "", run }),
-            Box::new(Sub { name: "conv", rule: "Lut <-> LutN conversions", strategy: strategy_conv, cases: (6_000, 300_000), exhaustive: None, exhaustive_note: "", run: run_conv }),
+            Box::new(Sub { name: "diff", rule: "Lut vs LutN on the same history", strategy, cases: (60_000, 1_000_000), exhaustive: None, exhaustive_note: "", run }),
+            Box::new(Sub { name: "conv", rule: "Lut <-> LutN conversions", strategy: strategy_conv, cases: (60_000, 600_000), exhaustive: None, exhaustive_note: "", run: run_conv }),
             Box::new(Sub {
                 name: "int",
                 rule: "integer conversions",
                 strategy: strategy_int,
-                cases: (20_000, 2_000_000),
+                cases: (200_000, 4_000_000),
                 exhaustive: Some(enumerate_int),
                 exhaustive_note: "all u8 (Lut3) and all u16 (Lut4) values",
                 run: run_int,
